@@ -38,6 +38,9 @@ type pairMon struct {
 	projCache map[string][]string
 	// look answers reference filters when projecting (nil: none declared)
 	look model.RefLookup
+	// noContent: the rows of this pair depend on other tables (reference filters);
+	// the state invariant then checks placement only, not content
+	noContent bool
 }
 
 func newPairMon(c *vk.Case, env *scen.Env, src, ig string) *pairMon {
